@@ -213,6 +213,9 @@ def cases(rng, tier):
         out.append(make_case(rng, L, d, rng.choice(dts), rng.random() < 0.6, rng.random() < 0.35, rng.random() < 0.12,
                              Dmax=3 if d ** L <= 81 else 2))
     # edge cases
+    for c in out:
+        if rng.random() < 0.2:
+            c['layout'] = rng.randrange(1, 4)
     out.append(make_case(rng, 0, 2, 'complex', False, False, False, kind='L0'))
     c = make_case(rng, 2, 2, 'complex', False, False, False, kind='mismatch')
     out.append(c)
@@ -233,6 +236,11 @@ def _build(case):
     chi = MPS(qd, qD['chi'], fill='postpone'); chi.A = [dec(a, dto['chi']) for a in T['chi']]
     op = MPO(qd, qD['op'], fill='postpone'); op.A = [dec(a, dto['op']) for a in T['op']]
     rho = MPO(qd, qD['rho'], fill='postpone'); rho.A = [dec(a, dto['rho']) for a in T['rho']]
+    if case.get('layout'):
+        # tensors in other memory layouts (Fortran order, non-contiguous views, negative strides): same values
+        import gen as G
+        for j, o in enumerate((psi, chi, op, rho)):
+            o.A = [G.relayout(a, case['layout'] + i + j) for i, a in enumerate(o.A)]
     return psi, chi, op, rho
 
 
